@@ -325,7 +325,7 @@ func (ss *SourceConf) MarshalJSON() ([]byte, error) {
 	aux.Include = strings[0:len(ss.Include)]
 	aux.Ignore = strings[len(ss.Include):]
 	if ss.isErrorBackoffSet {
-		aux.ErrorBackoff = fmt.Sprintf("%f", ss.ErrorBackoff)
+		aux.ErrorBackoff = strconv.FormatFloat(ss.ErrorBackoff, 'f', -1, 64)
 	}
 	return json.Marshal(aux)
 }
